@@ -384,10 +384,17 @@ def _apply_fn(src, w, op, fn, modname):
     for (kidx, c) in sorted(op.get('closures', {}).items()):
         cls = src.closures(fn)
         if kidx >= len(cls):
+            if c.get('optional'):
+                # the closure was refactored away (e.g. `.map(|v| ..)` -> `match`): its contract is a proof hint only
+                w.lost_hints = getattr(w, 'lost_hints', []) + [f'{label}: closure #{kidx}']
+                continue
             raise AnchorLost(f'{src.path}: fn `{op["path"]}` has no closure #{kidx}')
         bo, bc, b0, b1 = cls[kidx]
         have = norm(text[toks[bo].start:toks[bc].end])
         if norm(c['expect_params']) != have:
+            if c.get('optional'):
+                w.lost_hints = getattr(w, 'lost_hints', []) + [f'{label}: closure #{kidx} params `{have}`']
+                continue
             raise AnchorLost(f'{src.path}: closure #{kidx} of `{op["path"]}` has params `{have}`')
         # W5: param types are inserted after each listed ident; return+spec before the body
         for pname, pty in c.get('types', {}).items():
